@@ -363,12 +363,22 @@ func genItem(r *rand.Rand, op string, big bool) item {
 		}
 	case "TextArr":
 		n := arrLen(r, false)
+		// sparse arrays: (mostly) empty strings, i.e. the minimal one byte per element -- an array whose
+		// encoding is as short as its count allows, which is what a count-vs-remaining guard must still accept
+		sparse := r.Intn(3) == 0
+		if sparse && r.Intn(2) == 0 {
+			n = 1 + r.Intn(40)
+		}
 		var a []string
 		if n > 0 || r.Intn(2) == 0 {
 			a = make([]string, n)
 		}
 		vs := make([]core.Bytes, n)
 		for i := range a {
+			if sparse && r.Intn(5) != 0 {
+				vs[i] = core.Str("")
+				continue
+			}
 			a[i] = randText(r, randLen(r, false, 300))
 			vs[i] = core.Str(a[i])
 		}
@@ -520,6 +530,10 @@ func Run(c *core.Ctx) error {
 			}
 			stream(c, t, "short16", blk+1, items)
 		}
+	}
+	// gens "sweepref"/"sweepfail": the pattern-space sweeps (sweep.go)
+	if c.OnlyGen == "" || c.OnlyGen == "sweepref" || c.OnlyGen == "sweepfail" {
+		runSweep(c, t)
 	}
 	return nil
 }
